@@ -183,3 +183,7 @@ pub use api::{ParseResult, ParsedWmo, discover_wmo_chunks, parse_wmo, parse_wmo_
 
 // Validation and conversion functionality will use the new parser
 // These can be implemented later when the legacy structures are removed
+
+// verification hook (guard: cfg(kani), set only by `cargo kani`): harness module lives in /verif
+#[cfg(kani)]
+mod verif_kani;
